@@ -191,12 +191,122 @@ def _blocks(node: ast.AST):
         yield h.body
 
 
+def _predicate_expr(fn: ast.FunctionDef) -> Optional[ast.expr]:
+    """The single expression a side-effect-free helper computes, for helpers of the shape
+        [if c1: return True]* [name = expr]* return e      ==>   c1 or ... or e
+    (locals substituted; parameters only read).  None for anything else."""
+    if fn.args.vararg or fn.args.kwarg or fn.args.kwonlyargs or fn.args.posonlyargs:
+        return None
+    if any(ast.unparse(d) not in ("staticmethod",) for d in fn.decorator_list):
+        return None
+    body = [s for s in fn.body if not (isinstance(s, ast.Expr) and isinstance(s.value, ast.Constant) and isinstance(s.value.value, str))]
+    if not body or not isinstance(body[-1], ast.Return) or body[-1].value is None:
+        return None
+    for n in ast.walk(fn):
+        if isinstance(n, (ast.Yield, ast.YieldFrom, ast.Await, ast.Lambda, ast.NamedExpr, ast.Global, ast.Nonlocal)) or (isinstance(n, (ast.FunctionDef, ast.ClassDef)) and n is not fn):
+            return None
+    tests: List[ast.expr] = []
+    local: Dict[str, ast.expr] = {}
+
+    def subst(e: ast.expr) -> ast.expr:
+        class S(ast.NodeTransformer):
+            def visit_Name(self, node):
+                if isinstance(node.ctx, ast.Load) and node.id in local:
+                    return copy.deepcopy(local[node.id])
+                return node
+        return S().visit(copy.deepcopy(e))
+
+    for st in body[:-1]:
+        if isinstance(st, ast.If) and not st.orelse and len(st.body) == 1 and isinstance(st.body[0], ast.Return) \
+                and isinstance(st.body[0].value, ast.Constant) and st.body[0].value.value is True:
+            tests.append(subst(st.test))
+        elif isinstance(st, (ast.Assign, ast.AnnAssign)) and getattr(st, "value", None) is not None:
+            tgt = st.targets[0] if isinstance(st, ast.Assign) and len(st.targets) == 1 else getattr(st, "target", None)
+            if not isinstance(tgt, ast.Name) or tgt.id in local or tgt.id in {a.arg for a in fn.args.args}:
+                return None
+            local[tgt.id] = subst(st.value)
+        else:
+            return None
+    last = subst(body[-1].value)
+    if not tests:
+        return last if (len(body) > 1 or isinstance(last, (ast.BoolOp, ast.Compare))) else None
+    vals: List[ast.expr] = []
+    for t in tests + [last]:
+        if isinstance(t, ast.BoolOp) and isinstance(t.op, ast.Or):
+            vals.extend(t.values)           # a or (b or c) is a or b or c
+        else:
+            vals.append(t)
+    return ast.BoolOp(op=ast.Or(), values=vals)
+
+
+def _expand_predicates(trees: Dict[str, ast.AST], baseline: Set[str]) -> int:
+    """Calls of new private predicate helpers whose arguments are plain names / constants are
+    replaced by the expression the helper computes (exact: nothing is evaluated twice or in
+    another order that could matter)."""
+    n = 0
+    for mod, tree in trees.items():
+        scopes: List[Tuple[Optional[ast.ClassDef], List[ast.stmt]]] = [(None, tree.body)]
+        scopes += [(st, st.body) for st in tree.body if isinstance(st, ast.ClassDef)]
+        preds: Dict[Tuple[Optional[str], str], Tuple[ast.FunctionDef, ast.expr]] = {}
+        for cls, body in scopes:
+            for st in body:
+                if isinstance(st, ast.FunctionDef) and st.name.startswith("_") and not st.name.startswith("__"):
+                    q = f"{mod}:{cls.name}.{st.name}" if cls is not None else f"{mod}:{st.name}"
+                    if q in baseline:
+                        continue
+                    e = _predicate_expr(st)
+                    if e is not None:
+                        preds[(cls.name if cls is not None else None, st.name)] = (st, e)
+        if not preds:
+            continue
+        for cls, body in scopes:
+            for fn in [s_ for s_ in body if isinstance(s_, ast.FunctionDef)]:
+                if (cls.name if cls is not None else None, fn.name) in preds:
+                    continue
+                for parent_ in list(ast.walk(fn)):
+                    for field, val in ast.iter_fields(parent_):
+                        items = val if isinstance(val, list) else [val]
+                        for j, c in enumerate(items):
+                            if not isinstance(c, ast.Call) or c.keywords or not all(isinstance(a, (ast.Name, ast.Constant)) for a in c.args):
+                                continue
+                            key = None
+                            if isinstance(c.func, ast.Name) and (None, c.func.id) in preds:
+                                key = (None, c.func.id)
+                            elif cls is not None and isinstance(c.func, ast.Attribute) and isinstance(c.func.value, ast.Name) and c.func.value.id in ("self", "cls", cls.name) \
+                                    and (cls.name, c.func.attr) in preds:
+                                key = (cls.name, c.func.attr)
+                            if key is None:
+                                continue
+                            h, e = preds[key]
+                            params = [a.arg for a in h.args.args]
+                            if key[0] is not None and not any(ast.unparse(d) == "staticmethod" for d in h.decorator_list):
+                                params = params[1:]
+                            if len(params) != len(c.args):
+                                continue
+                            amap = dict(zip(params, c.args))
+
+                            class S(ast.NodeTransformer):
+                                def visit_Name(self, node):
+                                    if node.id in amap:
+                                        return copy.deepcopy(amap[node.id])
+                                    return node
+                            new = S().visit(copy.deepcopy(e))
+                            for x in ast.walk(new):
+                                ast.copy_location(x, c)
+                            if isinstance(val, list):
+                                val[j] = new
+                            else:
+                                setattr(parent_, field, new)
+                            n += 1
+    return n
+
+
 def expand_new_helpers(trees: Dict[str, ast.AST], baseline: Optional[Set[str]]) -> int:
     """trees: module name -> parsed tree (modified in place).  Returns the number of call
     sites expanded."""
     if baseline is None:
         return 0
-    count = 0
+    count = _expand_predicates(trees, baseline)
     serial = [0]
     for mod, tree in trees.items():
         scopes: List[Tuple[Optional[ast.ClassDef], List[ast.stmt]]] = [(None, tree.body)]
